@@ -8,6 +8,8 @@ import (
 	"regexp"
 	"runtime"
 	"strings"
+	"sync"
+	"verifharness/internal/schemaref"
 
 	"github.com/go-faster/jx"
 
@@ -19,6 +21,9 @@ type C04Pkg struct {
 	Key    string `json:"key"`
 	Origin string `json:"origin"`
 	Values int    `json:"values"`
+	// conformance of corpus types: Go type name -> component schema name, and the document's components.schemas
+	TypeSchemas map[string]string `json:"type_schemas,omitempty"`
+	Components  string            `json:"components,omitempty"`
 }
 
 type C04Data struct {
@@ -128,6 +133,112 @@ func runC04(r *ev.Run, data json.RawMessage) error {
 	return nil
 }
 
+// c04Schemas caches the parsed components of a package (and copies with one known gap relaxed each).
+type c04Schemas struct {
+	all, relaxedReq, noCount, both map[string]*jsonv.Value
+}
+
+var c04SchemaCache sync.Map // package key -> *c04Schemas
+
+func c04Comps(cfg C04Pkg) *c04Schemas {
+	if cfg.Components == "" {
+		return nil
+	}
+	if v, ok := c04SchemaCache.Load(cfg.Key); ok {
+		return v.(*c04Schemas)
+	}
+	cs := &c04Schemas{all: map[string]*jsonv.Value{}, relaxedReq: map[string]*jsonv.Value{}, noCount: map[string]*jsonv.Value{}, both: map[string]*jsonv.Value{}}
+	if cv, err := jsonv.Parse([]byte(cfg.Components)); err == nil && cv.Kind == jsonv.Object {
+		for _, m := range cv.Members {
+			cs.all[m.Name] = m.Value
+		}
+		for n, v := range cs.all {
+			cs.relaxedReq[n] = schemaref.DropUndeclaredRequired(v, cs.all)
+			cs.noCount[n] = schemaref.DropPropertyCounts(v)
+			cs.both[n] = schemaref.DropPropertyCounts(cs.relaxedReq[n])
+		}
+	}
+	c04SchemaCache.Store(cfg.Key, cs)
+	return cs
+}
+
+// c04Conforms checks an encoding against the component schema the type was generated from.
+func c04Conforms(r *ev.Run, cfg C04Pkg, t reflect.Type, where string, text []byte, pv *jsonv.Value, w func(map[string]any) map[string]any) {
+	comp := cfg.TypeSchemas[t.Name()]
+	cs := c04Comps(cfg)
+	if comp == "" || cs == nil || cs.all[comp] == nil {
+		return
+	}
+	res := schemaref.MapResolver(cs.all)
+	root := cs.all[comp]
+	numericLoose := false
+	if why := schemaref.Undecided(root, pv, res); why != "" {
+		if !strings.HasPrefix(why, "xcheck:") {
+			r.Count("corpus_conformance_outside_deciding_domain:"+strings.SplitN(why, " ", 2)[0], 1)
+			return
+		}
+		// a number whose decimal text is not the exact binary64 value: structure, types and names are still
+		// decided; numeric keywords (the generated validator works on the float, the reference on the text) are not
+		numericLoose = true
+	}
+	ok, why := schemaref.Validate(root, pv, res)
+	r.Count("corpus_conformance_checked", 1)
+	if ok {
+		r.Count("corpus_conformance_valid", 1)
+		return
+	}
+	if numericLoose {
+		for _, kw := range []string{"multipleOf", "minimum", "maximum", "enum"} {
+			if strings.Contains(why, kw) {
+				r.Count("corpus_conformance_numeric_keyword_on_inexact_number_not_judged", 1)
+				return
+			}
+		}
+	}
+	// relaxations: R = required names not declared under properties dropped (known F-C04-3), C = property counts
+	// dropped (known F-C04-1), O = every oneOf read as anyOf (overlapping corpus oneOf: not judged)
+	relax := func(rq, cnt, one bool) bool {
+		m := map[string]*jsonv.Value{}
+		for n, v := range cs.all {
+			if rq {
+				v = cs.relaxedReq[n]
+			}
+			if cnt {
+				v = schemaref.DropPropertyCounts(v)
+			}
+			if one {
+				v = schemaref.OneOfAsAnyOf(v)
+			}
+			m[n] = v
+		}
+		ok2, _ := schemaref.Validate(m[comp], pv, schemaref.MapResolver(m))
+		return ok2
+	}
+	wit := w(map[string]any{"json": clip(text), "component": comp, "schema": clip(jsonv.Compact(root)), "reference_reason": why})
+	reqMsg := func() {
+		r.Violate("json/conformance-required-undeclared-property", fmt.Sprintf("%s: a value that passes Validate() encodes to JSON lacking a required member that is not declared under properties: %s (%s)", where, clip(text), why), wit)
+	}
+	cntMsg := func() {
+		r.Violate("json/property-count-enforced-by-decode-not-by-validate", fmt.Sprintf("%s: a value that passes Validate() encodes to JSON violating a minProperties/maxProperties of the schema: %s (%s)", where, clip(text), why), wit)
+	}
+	switch {
+	case relax(false, false, true):
+		// corpus oneOf whose variants overlap (no discriminator, no disjoint required sets): the instance is valid
+		// once every oneOf is read as anyOf, i.e. it fails only because several variants match
+		r.Count("corpus_conformance_overlapping_oneof_not_judged", 1)
+	case strings.Contains(why, "null is not of type") && strings.Contains(string(jsonv.Compact(root)), `"nullable":true`):
+		// 'nullable: true' next to allOf/oneOf/anyOf or on a $ref holder: whether null is allowed there is read
+		// differently by tools (OpenAPI 3.0.3 ties nullable to a 'type' in the same schema object)
+		r.Count("corpus_conformance_null_next_to_composition_not_judged", 1)
+	case relax(true, false, false), relax(true, false, true):
+		reqMsg()
+	case relax(false, true, false), relax(false, true, true), relax(true, true, false), relax(true, true, true):
+		cntMsg()
+	default:
+		r.Violate("json/corpus-encoding-violates-schema:"+whyClass(why), fmt.Sprintf("%s: a value that passes its own Validate() encodes to JSON that is invalid against component schema %s: %s ; reference: %s", where, comp, clip(text), why), wit)
+	}
+}
+
 func c04Type(r *ev.Run, pkg *Package, cfg C04Pkg, t reflect.Type, idx int) {
 	enc, dec, _ := jsonCodec(t)
 	rng := r.Rand("c04", cfg.Key, t.Name())
@@ -181,6 +292,9 @@ func c04Type(r *ev.Run, pkg *Package, cfg C04Pkg, t reflect.Type, idx int) {
 			if pv.HasDuplicateKeys() {
 				r.Violate("json/duplicate-member", fmt.Sprintf("%s: Encode wrote an object with duplicate member names: %s", where, clip(text)), w(map[string]any{"json": clip(text)}))
 				return
+			}
+			if name == "first" {
+				c04Conforms(r, cfg, t, where, text, pv, w)
 			}
 			out, derr, pan := decodeJSON(dec, t, text)
 			if pan != "" {
